@@ -29,7 +29,7 @@ SHARDED = True
 SKIP = set(c14.SKIP) | {"eval", "print", "echo", "write", "assert", "throw'", "memoize", "freeze"}
 POOL = [
     ("null", "null"), ("int0", "0"), ("int1", "1"), ("intneg", "(-1)"), ("int2", "2"), ("int7", "7"), ("big", "(2^64)"),
-    ("rational", "(1/2)"), ("float", "1.5"), ("float1", "1.0"), ("rat1", "(2/2)"),     # 1.0 and 2/2 tie with int1 under ==: which operand a form returns shows in the level ("nan", "(0.0/0.0)"), ("complex", "(1+2i)"),
+    ("rational", "(1/2)"), ("float", "1.5"), ("float1", "1.0"), ("rat1", "(2/2)"), ("fzero", "0.0"), ("negzero", "(-0.0)"),     # 1.0 and 2/2 tie with int1 under ==: which operand a form returns shows in the level ("nan", "(0.0/0.0)"), ("complex", "(1+2i)"),
     ("emptystr", '""'), ("str", '"ab"'), ("ch", '"a"'), ("ch2", '"e"'), ("ustr", '"hé"'), ("emptylist", "[]"), ("list", "[3, 1, 2]"), ("nested", "[[1, 2], [3]]"),
     ("mixed", '[1, "a", null]'), ("dict", '{1: 2, "a": [3]}'), ("set", "{1, 2}"), ("vector", "V(1, 2)"), ("bytes", "B[104, 255]"),
     ("stream", "(1 to 3)"), ("builtin", "(+)"), ("closure", "(\\x -> [x])"), ("closure2", "(\\x, y -> [x, y])"), ("type", "int"),
@@ -38,7 +38,7 @@ POOL = [
     # a function that prints its argument: the printed output is part of every form's outcome, so a form that calls it more or fewer times differs
     ("noisy", "(\\x -> (print(x); x))"),
 ]
-QUICK = ["null", "int0", "int1", "float1", "int2", "rational", "float", "str", "ch", "ch2", "ustr", "list", "mixed", "dict", "stream", "closure", "closure2", "pred", "noisy"]
+QUICK = ["null", "int0", "negzero", "int1", "float1", "int2", "rational", "float", "str", "ch", "ch2", "ustr", "list", "mixed", "dict", "stream", "closure", "closure2", "pred", "noisy"]
 SUB3 = ["int0", "int2", "str", "ch", "list", "closure2", "null", "stream", "float"]
 SUB3_QUICK = ["int2", "str", "ch", "list", "closure2"]     # two different strings: pattern / replacement / subject must be tellable apart
 
